@@ -416,7 +416,8 @@ class C01(EvalProp):
                   "(query, document) pairs through both, locations of the crate's results being recovered by address inside "
                   "the caller's document (a copy or fabricated value shows up as FOREIGN). At string level the statement is proved end to end "
                   "(C01_string_level_filter_free, C01_string_level_with_filters: text of the query -> generated grammar -> parser.rs -> "
-                  "evaluator = RFC nodelist) for the filter-free sublanguage and for filters nested to any depth in canonical spelling.")
+                  "evaluator = RFC nodelist) for the filter-free sublanguage and for filters nested to any depth in canonical spelling. "
+                  "A singular query selects at most one node of every document (C01_singular_query_at_most_one_node, ..._model_at_most_one).")
     level_note = "hand model of src/query/*.rs; differential run is sampling; names with escapes are the listed known class D7"
     rule = ("random (query, document) pairs, 60% as query strings through query_with_path/query/query_only_path (random RFC layout), "
             "40% as programmatically built ASTs through js_path_process; observable = multiset of result locations found by "
